@@ -208,7 +208,7 @@ def run(ctx):
         if not guarded:
             rf.violate(fn.id, "filter-clause-dropped", f"an AggregateExpr is built at line {ln} without any branch on the parsed `FILTER (WHERE …)` clause: the clause is accepted by "
                        "the parser and silently ignored, `count(*) FILTER (WHERE x > 5)` counts every row", rec["file"], ln)
-    return [r, rule_valid(facts, impls), rule_simul(facts), rf, rule_nanorder(facts), rule_hashcanon(facts)]
+    return [r, rule_valid(facts, impls), rule_simul(facts), rf, rule_nanorder(facts), rule_hashcanon(facts), rule_dircap(facts)]
 
 
 def rule_nanorder(facts):
@@ -280,13 +280,52 @@ def rule_hashcanon(facts):
                        "split them and a hash join misses the pair that the nested-loop join finds")
 
 
+def rule_dircap(facts):
+    """Open addressing: the home slot of a hash is `hash & (capacity - 1)` and probing wraps at `capacity`. Both have to use the capacity
+    of the array that is actually indexed; an entry placed with one capacity and looked up with another is not found and the group is
+    created twice (GROUP BY / DISTINCT return duplicates). Decided per function of the aggregate hash table: every capacity operand of
+    compute_offset_from_hash / inc_and_wrap_offset is (i) the directory's own `capacity()` / `len()`, or (ii) the very value the
+    function hands to the raw allocation (`DbVec::with_value`) of the array it then fills; and all of them in one function agree."""
+    r = RuleResult("C07-DIRCAP", "hash-directory offsets are computed with the capacity of the array that is indexed (one capacity per function)", floor=4)
+    for rec in facts.all_fns(["glaredb_core"], contains="compute_offset_from_hash"):
+        if "::tests::" in rec["id"] or "hash_aggregate::hash_table" not in rec["id"]:
+            continue
+        fn = Fn(rec)
+        cs = [c for c in fn.calls() if c.name.endswith(("::compute_offset_from_hash", "::inc_and_wrap_offset")) and len(c.args) == 2]
+        if not cs:
+            continue
+        allocs = [fn.origin(c.args[1], at=c.bb) for c in fn.calls() if c.name.endswith("DbVec::<T>::with_value") or c.name.endswith("DbVec::with_value") and len(c.args) > 1]
+        allocs = [a for a in allocs if a]
+
+        def key(o):
+            return (o[0], str(o[1]), str(o[2]) if len(o) > 2 else "")
+        kinds = set()
+        r.functions.add(fn.id)
+        for c in cs:
+            o = fn.origin(c.args[1], at=c.bb)
+            own = o[0] == "call" and o[1].name.rsplit("::", 1)[-1] in ("capacity", "len") and "hash_table" in o[1].name or \
+                (o[0] == "call" and o[1].name.endswith("::len"))
+            same_as_alloc = any(key(o) == key(a) for a in allocs)
+            ok = own or same_as_alloc
+            kinds.add("own" if own else (key(o) if same_as_alloc else ("other", c.line)))
+            r.call_sites += 1
+            r.inst({"fn": fn.id, "line": c.line, "capacity_is": "directory capacity" if own else ("allocated size" if same_as_alloc else "unrelated value")}, ok)
+            if not ok:
+                r.violate(fn.id, "offset-with-foreign-capacity", f"{c.name.rsplit('::', 1)[-1]} at line {c.line} uses a capacity that is neither the directory's own capacity nor the "
+                          "size the array was allocated with: entries are placed where later lookups do not probe", rec["file"], c.line)
+        if len(kinds) > 1 and not any(isinstance(k, tuple) and k[0] == "other" for k in kinds):
+            r.violate(fn.id, "mixed-capacities", "the offset computations of this function use different capacity values", rec["file"], rec["line"])
+    return r
+
+
 CLAIM = {
     "text": "Sibling/field-effect rule on MIR for every AggregateState implementation in the workspace: W(update) ⊆ W(merge) and "
             "W(update) ⊆ R(merge, other). This is the structural precondition for aggregates to be independent of how rows are split over "
             "partitions; the numeric correctness of the combination is a value question and is not decided. Plus a guard rule: a merge that "
             "compares with or takes the other state's value does so only behind the other state's validity flag (an empty partial state "
             "holds the type's default value, not a minimum). Plus a simultaneity rule over all 25 merge implementations: a field of self that has already been overwritten is never read to compute a different field (the merged state is a function of the two input states; e.g. the Welford delta must use the input mean)."
-            " Plus AGGFILTER (the aggregate FILTER clause is translated or refused, never dropped), NANORDER (the min/max replace decision consults self-comparison, so a NaN's arrival order does not matter) and HASHCANON (float hashing canonicalises the sign of zero).",
+            " Plus AGGFILTER (the aggregate FILTER clause is translated or refused, never dropped), NANORDER (the min/max replace decision consults self-comparison, so a NaN's arrival order does not matter) and HASHCANON (float hashing canonicalises the sign of zero)."
+            " Plus DIRCAP: every offset computation of the aggregate hash directory uses the capacity of the array it indexes.",
     "note": "trusted: rustc MIR; a &mut borrow of a field counts as a write, any mention as a read; whole-state operations (swap/assign) cover all fields",
     "technique": "static analysis: MIR field-effect summaries + sibling agreement (rustc_private driver)",
 }
